@@ -591,7 +591,7 @@ func (d *msgpackDecDriver[T]) DecodeInt64() (i int64) {
 	case mpUint32:
 		i = int64(uint64(bigen.Uint32(d.r.readn4())))
 	case mpUint64:
-		i = int64(bigen.Uint64(d.r.readn8()))
+		i = chkOvf.SignedIntV(bigen.Uint64(d.r.readn8()))
 	case mpInt8:
 		i = int64(int8(d.r.readn1()))
 	case mpInt16:
@@ -691,6 +691,8 @@ func (d *msgpackDecDriver[T]) DecodeFloat64() (f float64) {
 		f = float64(math.Float32frombits(bigen.Uint32(d.r.readn4())))
 	} else if d.bd == mpDouble {
 		f = math.Float64frombits(bigen.Uint64(d.r.readn8()))
+	} else if d.bd == mpUint64 {
+		f = float64(bigen.Uint64(d.r.readn8()))
 	} else {
 		f = float64(d.DecodeInt64())
 	}
